@@ -383,6 +383,27 @@ def spec(tier, seed):
                         L.append("    return three_way(P_%s, X_%s, %r, [%s]%s)" % (
                             fn, fn, op, ", ".join('("%s", %s)' % (nm, odd if i == pos else nm) for i, nm in enumerate(names)), legs))
                         add("\n".join(L), "%s with %s = %s" % (hytext, names[pos], odd), "mixed/" + op, name=fn)
+        # concrete operands for which the grouping of an n-ary form matters (sets, inexact floats, strings/lists):
+        # a - b - c is a left fold, not a - (b + c)
+        pools = {"-": ["{1, 2, 3}, {1}, {2}", "0.3, 0.1, 0.2", "1e16, 1.0, 1.0", "{1, 2}, {2}, {1}, {5}", "0.1, 0.2, 0.3, 0.4"],
+                 "+": ["0.1, 0.2, 0.3", "1e16, 1.0, -1e16", "'a', 'b', 'c'", "[1], [2], [3], [4]"],
+                 "*": ["0.1, 0.2, 0.3", "'ab', 2, 3", "[1], 2, 2", "1e200, 1e200, 1e-200"],
+                 "/": ["1.0, 3.0, 7.0", "0.1, 0.3, 0.7, 2.0"], "//": ["7.5, 2.0, 1.5"], "%": ["7.5, 2.0, 1.5"],
+                 "|": ["{1}, {2}, {3}", "5, 2, 8"], "&": ["{1, 2}, {2, 3}, {2}", "7, 6, 12"], "^": ["{1, 2}, {2, 3}, {3, 4}", "7, 6, 12"],
+                 "**": ["2.0, 0.5, 2.0"], "<<": ["1, 2, 3"], ">>": ["1024, 1, 2, 2"]}
+        for tup in pools.get(op, []):
+            n = len(eval("(" + tup + ",)"))
+            names = ["x%d" % i for i in range(n)]
+            exp = expansion(op, names, rules)
+            if exp is None:
+                continue
+            fn = "h%d" % n_id[0]
+            n_id[0] += 1
+            hytext = "(%s %s)" % (op, " ".join(names))
+            L = ["P_%s = _sk.compile_prog(%r)" % (fn, hytext), "X_%s = mk_exp(%r)" % (fn, exp), "V_%s = (%s,)" % (fn, tup),
+                 "def %s(x: int) -> bool:" % fn, '    """', "    post: _", '    """',
+                 "    return three_way(P_%s, X_%s, %r, [%s])" % (fn, fn, op, ", ".join('("%s", V_%s[%d])' % (nm, fn, i) for i, nm in enumerate(names)))]
+            add("\n".join(L), "%s with concrete operands %s" % (hytext, tup), "grouping/" + op, name=fn)
         # augmented assignment
         if op in ARITH:
             for n in range(1, (4 if tier == "quick" else 5) + 1):
